@@ -10,15 +10,65 @@ import (
 	"fmt"
 	"math/rand/v2"
 	"net/netip"
+	"runtime"
 	"strings"
 	"testing"
 	"testing/synctest"
+	"time"
 
 	"github.com/osrg/gobgp/v4/api"
 	"github.com/osrg/gobgp/v4/internal/verif/vlib"
 	"github.com/osrg/gobgp/v4/pkg/apiutil"
 	"github.com/osrg/gobgp/v4/pkg/packet/bgp"
 )
+
+// c06Pipe: how a layer-3 session delivers the message under test.
+type c06Pipe struct {
+	Prelude bool          // valid routes for the named prefixes in front of it (same write)
+	Hold    uint16        // hold time offered by the speaker (0: no keepalives)
+	HoldUp  time.Duration // virtual time the Established handler is held at its yield point (0: just yields)
+}
+
+const c06Trailer = "10.88.0.0/24" // announced by the well-formed UPDATE written right behind the message under test
+
+// c06PipeConnect offers a connection to gobgp, reads its OPEN, and then writes OPEN + KEEPALIVE + burst in
+// one go without looking at what gobgp does, while the ordinary reader collects what gobgp sends.
+func c06PipeConnect(sp *simSpeaker, burst []byte, tries int) error {
+	var err error
+	for i := 0; i < tries; i++ {
+		gside, mine := simPipe(simLocalAddr, sp.conf.Addr, sp.conf.Port)
+		sp.n.acceptCh <- gside
+		var hd *bgp.BGPHeader
+		var body []byte
+		if hd, body, err = simReadMsgRaw(mine); err == nil {
+			var om *bgp.BGPMessage
+			if om, err = bgp.ParseBGPBody(hd, body); err == nil {
+				if open, ok := om.Body.(*bgp.BGPOpen); ok {
+					sp.mu.Lock()
+					sp.c = mine
+					sp.view = map[simRouteKey]simRoute{}
+					sp.eor = map[bgp.Family]int{}
+					sp.notif, sp.closedErr = nil, nil
+					sp.done = make(chan struct{})
+					done := sp.done
+					sp.mu.Unlock()
+					sp.negotiate(open)
+					ob, _ := sp.openMsg().Serialize()
+					kb, _ := bgp.NewBGPKeepAliveMessage().Serialize()
+					out := append(append(ob, kb...), burst...)
+					sp.readerWG.Add(1)
+					go sp.reader(mine, done)
+					go mine.Write(out)
+					return nil
+				}
+				err = fmt.Errorf("expected OPEN, got type %d", hd.Type)
+			}
+		}
+		mine.Close()
+		time.Sleep(time.Second)
+	}
+	return err
+}
 
 const (
 	c06Marker      = 65000<<16 | 999 // community carried by the routes sent before the faulty message
@@ -166,7 +216,11 @@ func c06L2Session(t *testing.T, rec *vlib.Rec, idx int, c *c06Case) (obs *c06Obs
 	if s.pt == c06IBGP {
 		kind = simIBGP
 	}
-	inj, err := n.addPeer(simPeerSpec{Kind: kind, Addr: c06PeerAddr, AS: s.pt.peerAS(), ID: "2.2.2.2", V6: true, APRecv: s.addPath})
+	hold := uint16(0)
+	if c.pipe != nil {
+		hold = c.pipe.Hold
+	}
+	inj, err := n.addPeer(simPeerSpec{Kind: kind, Addr: c06PeerAddr, AS: s.pt.peerAS(), ID: "2.2.2.2", V6: true, APRecv: s.addPath, Hold: hold})
 	if err != nil {
 		rec.Inconclusive("c06: AddPeer: " + err.Error())
 		return nil, false
@@ -197,24 +251,7 @@ func c06L2Session(t *testing.T, rec *vlib.Rec, idx int, c *c06Case) (obs *c06Obs
 		}
 	}
 	synctest.Wait()
-	for _, sp := range []*simSpeaker{inj, third} {
-		if err := sp.bringUp(40); err != nil {
-			rec.Inconclusive("c06: " + err.Error())
-			return nil, false
-		}
-	}
-	var latched [3]bool
-	n.s.mgmtOperation(func() error {
-		f := n.s.neighborMap[netip.MustParseAddr(c06PeerAddr)].fsm
-		latched = [3]bool{f.isTreatAsWithdraw, f.isEBGP, f.isConfed}
-		return nil
-	}, false)
-	if latched != [3]bool{s.taw, s.pt != c06IBGP, s.pt == c06Confed} {
-		rec.Inconclusive(fmt.Sprintf("c06: session parameters latched as taw/ebgp/confed=%v for %s", latched, s))
-		return nil, false
-	}
-
-	// ---- valid routes first
+	// ---- what will be sent
 	m := c.msg
 	var pre []c06Pfx
 	seen := map[string]bool{}
@@ -232,33 +269,89 @@ func c06L2Session(t *testing.T, rec *vlib.Rec, idx int, c *c06Case) (obs *c06Obs
 		pre = append(pre, p)
 		by = append(by, p.key(s.addPath))
 	}
-	for _, raw := range c06Prelude(s, pre) {
-		if err := inj.sendRaw(raw); err != nil {
-			rec.Inconclusive("c06: send prelude: " + err.Error())
+	trailer := c06P(c06Trailer, 3)
+	if c.pipe != nil {
+		// layer 3: OPEN + KEEPALIVE + [valid routes] + message under test + one more valid route, written back
+		// to back without waiting for gobgp; optionally the Established handler is held up after it started
+		// its I/O goroutines so that the receive side runs ahead of it.
+		if err := third.bringUp(40); err != nil {
+			rec.Inconclusive("c06: " + err.Error())
 			return nil, false
 		}
-	}
-	synctest.Wait()
-	adj, _ := c06List(n, api.TableType_TABLE_TYPE_ADJ_IN, c06PeerAddr, s.addPath)
-	view := c06ObserverView(third)
-	for _, p := range pre {
-		k := p.key(s.addPath)
-		ap, inAdj := adj[k]
-		_, atThird := view[c06StripID(k)+"#0"]
-		if !inj.established() || !inAdj || !c06HasMarker(ap.Attrs) || !atThird {
-			rec.Violation(fmt.Sprintf("c06:prelude:%s:not-accepted", s.pt),
-				fmt.Sprintf("layer 2, %s session: the valid routes sent first were not all accepted and propagated (prefix %s: adj-in=%v third-peer=%v established=%v)", s, k, inAdj, atThird, inj.established()),
-				c.witness(idx, nil))
+		var burst []byte
+		if c.pipe.Prelude {
+			for _, raw := range c06Prelude(s, pre) {
+				burst = append(burst, raw...)
+			}
+		} else {
+			by = nil
+		}
+		burst = append(burst, c.raw...)
+		burst = append(burst, c06Prelude(s, []c06Pfx{trailer})[0]...)
+		verifHookPtr.Store(&verifHooks{yield: func(point, peer string) {
+			if point == "established" && peer == c06PeerAddr && c.pipe.HoldUp > 0 {
+				time.Sleep(c.pipe.HoldUp)
+			} else {
+				runtime.Gosched()
+			}
+		}})
+		err := c06PipeConnect(inj, burst, 40)
+		time.Sleep(100 * time.Millisecond)
+		synctest.Wait()
+		verifHookPtr.Store(nil)
+		if err != nil {
+			rec.Inconclusive("c06: pipelined connect: " + err.Error())
 			return nil, false
 		}
+	} else {
+		for _, sp := range []*simSpeaker{inj, third} {
+			if err := sp.bringUp(40); err != nil {
+				rec.Inconclusive("c06: " + err.Error())
+				return nil, false
+			}
+		}
 	}
-
-	// ---- the message under test
-	if err := inj.sendRaw(c.raw); err != nil {
-		rec.Inconclusive("c06: send: " + err.Error())
+	var latched [3]bool
+	n.s.mgmtOperation(func() error {
+		f := n.s.neighborMap[netip.MustParseAddr(c06PeerAddr)].fsm
+		latched = [3]bool{f.isTreatAsWithdraw, f.isEBGP, f.isConfed}
+		return nil
+	}, false)
+	if latched != [3]bool{s.taw, s.pt != c06IBGP, s.pt == c06Confed} {
+		rec.Inconclusive(fmt.Sprintf("c06: session parameters latched as taw/ebgp/confed=%v for %s", latched, s))
 		return nil, false
 	}
-	synctest.Wait()
+
+	if c.pipe == nil {
+		// ---- valid routes first
+		for _, raw := range c06Prelude(s, pre) {
+			if err := inj.sendRaw(raw); err != nil {
+				rec.Inconclusive("c06: send prelude: " + err.Error())
+				return nil, false
+			}
+		}
+		synctest.Wait()
+		adj, _ := c06List(n, api.TableType_TABLE_TYPE_ADJ_IN, c06PeerAddr, s.addPath)
+		view := c06ObserverView(third)
+		for _, p := range pre {
+			k := p.key(s.addPath)
+			ap, inAdj := adj[k]
+			_, atThird := view[c06StripID(k)+"#0"]
+			if !inj.established() || !inAdj || !c06HasMarker(ap.Attrs) || !atThird {
+				rec.Violation(fmt.Sprintf("c06:prelude:%s:not-accepted", s.pt),
+					fmt.Sprintf("layer 2, %s session: the valid routes sent first were not all accepted and propagated (prefix %s: adj-in=%v third-peer=%v established=%v)", s, k, inAdj, atThird, inj.established()),
+					c.witness(idx, nil))
+				return nil, false
+			}
+		}
+
+		// ---- the message under test
+		if err := inj.sendRaw(c.raw); err != nil {
+			rec.Inconclusive("c06: send: " + err.Error())
+			return nil, false
+		}
+		synctest.Wait()
+	}
 	o := &c06Obs{label: -1, state: map[string]c06PState{}, attrs: map[string][]bgp.PathAttributeInterface{}}
 	inj.mu.Lock()
 	nf := inj.notif
@@ -273,9 +366,14 @@ func c06L2Session(t *testing.T, rec *vlib.Rec, idx int, c *c06Case) (obs *c06Obs
 		o.reset = true
 		o.notes = append(o.notes, "session went down without a NOTIFICATION")
 	}
-	adj, _ = c06List(n, api.TableType_TABLE_TYPE_ADJ_IN, c06PeerAddr, s.addPath)
+	adj, _ := c06List(n, api.TableType_TABLE_TYPE_ADJ_IN, c06PeerAddr, s.addPath)
 	glob, _ := c06List(n, api.TableType_TABLE_TYPE_GLOBAL, "", s.addPath)
-	view = c06ObserverView(third)
+	view := c06ObserverView(third)
+	if c.pipe != nil && !o.reset {
+		if tp, in := adj[trailer.key(s.addPath)]; !in || !c06HasMarker(tp.Attrs) {
+			o.dead = true
+		}
+	}
 	ann, wd := m.named()
 	keys := append(append(append([]string{}, ann...), wd...), by...)
 	var third3 []string
@@ -308,7 +406,7 @@ func c06L2Session(t *testing.T, rec *vlib.Rec, idx int, c *c06Case) (obs *c06Obs
 			third3 = append(third3, fmt.Sprintf("%s: after the reset adj-in %s, global %s, third peer %s", k, st, gst, vst))
 		}
 	}
-	rec.Count("l2_third_peer_checks", len(keys))
+	rec.Count(fmt.Sprintf("l%d_third_peer_checks", c.layer), len(keys))
 	if !o.reset {
 		for _, k := range by {
 			if o.state[k] != c06Old {
@@ -332,7 +430,7 @@ func c06L2Session(t *testing.T, rec *vlib.Rec, idx int, c *c06Case) (obs *c06Obs
 			key = fmt.Sprintf("c06:pair:tables-disagree:%s:taw%d", s.pt, taw)
 		}
 		rec.Violation(key,
-			fmt.Sprintf("layer 2, %s session, faults %s: adj-in, global table and the third peer's view disagree: %s", s, c.faultIDs(), strings.Join(third3, "; ")), c.witness(idx, o))
+			fmt.Sprintf("end to end, %s session, faults %s: adj-in, global table and the third peer's view disagree: %s", s, c.faultIDs(), strings.Join(third3, "; ")), c.witness(idx, o))
 	}
 	return o, true
 }
